@@ -1076,6 +1076,9 @@ def solve(objfun, x0, h=None, lh=None, prox_uh=None, argsf=(), argsh=(), argspro
     if exit_info is None and params("restarts.rhoend_scale") <= 0.0:
         exit_info = ExitInformation(EXIT_INPUT_ERROR, "restarts.rhoend_scale must be strictly positive (rhoend must stay positive)")
 
+    if exit_info is None and params("growing.delta_scale_new_dirns") <= 0.0:
+        exit_info = ExitInformation(EXIT_INPUT_ERROR, "growing.delta_scale_new_dirns must be strictly positive (new directions need a positive length)")
+
     if exit_info is None and params("general.safety_step_thresh") <= 0.0:
         exit_info = ExitInformation(EXIT_INPUT_ERROR, "general.safety_step_thresh must be strictly positive (zero-length steps would be accepted)")
 
